@@ -143,6 +143,18 @@ def check(run, M, tier):
             continue
         _t3(run, M, eff, c, f, others)
 
+    # ---------------------------------------------------------------- T6
+    run.rule("T6", "Alg.__init__ stores the budget it is given (self.max_iter = max_iter) and starts the counter at 0")
+    ainit = M.method(base, "__init__", inherit=False)
+    if ainit is None:
+        raise AnchorMissing("Alg.__init__")
+    _, aouts = vn_paths(M, ainit, real=set())
+    aouts = [o for o in aouts if o.status != "raise"]
+    okb = bool(aouts) and all(o.env.get("self.max_iter") == T.sym("max_iter") and T.show(o.env.get("self.iter"), 10) == "0" for o in aouts)
+    run.check(okb, "T6", "Alg.__init__", ainit.loc(), "self.max_iter = max_iter; self.iter = 0",
+              "Alg.__init__ stores max_iter as %s and iter as %s: the budget test iter >= max_iter no longer enforces the requested number of updates "
+              "(e.g. `max_iter or inf` turns a budget of 0 into no limit)" % (sorted({T.show(o.env.get("self.max_iter"), 80) for o in aouts}), sorted({T.show(o.env.get("self.iter"), 20) for o in aouts})),
+              stmt="T6")
     # ---------------------------------------------------------------- T3z
     n_fn = 0
     for c in [base] + algs:
